@@ -76,6 +76,15 @@ def gen(st, tier):
     if tier == "thorough":
         # complete enumeration per file: keep the file small enough for it (comments are not part of the binary)
         spec["obj"]["comments"] = [c for c in spec["obj"]["comments"] if len(c[1]) < 200]
+        for c in spec["obj"]["components"]:
+            b = c["blob"]
+            if b["len"] > 300:
+                # the occasional 4 KiB content makes one complete enumeration take ten minutes: not here
+                n = 260 + b["len"] % 40
+                if c.get("alen") is not None:
+                    c["alen"] = max(1, n - (b["len"] - c["alen"]))
+                b["len"] = n
+                b["tail0"] = min(b["tail0"], n)
         spec["faults"] = "all"
         return spec
     faults = []
